@@ -3,6 +3,7 @@
 package c13
 
 import (
+	"errors"
 	"fmt"
 	"os"
 	"path/filepath"
@@ -132,6 +133,8 @@ type double struct {
 	outstanding map[int64]bool // requests received and not (yet) answered with a block
 	answered    int
 	drained     bool      // outstanding has been empty after at least one answer
+	left        bool      // it hung up itself
+	leaveAt     int       // tick at which it closes its connection (0: stays)
 	silentSince time.Time // since when it has owed blocks without delivering any (zero: owes nothing)
 }
 
@@ -481,6 +484,14 @@ func (n *node) step() {
 			n.schedule(event{due: n.tick, d: m.d, status: n.statusOf(m.d.spec, kind, m.d.spec.StatusArg)})
 		}
 	}
+	// hit-and-run peers hang up: the switch learns about a dead connection through the peer's error callback, which
+	// is Switch.StopPeerForError
+	for _, d := range n.doubles {
+		if d.leaveAt > 0 && n.tick >= d.leaveAt && !d.isStopped() {
+			d.left = true
+			n.sw.StopPeerForError(d, errors.New("connection closed by peer"))
+		}
+	}
 	// an honest peer that was dropped as collateral reconnects (as a persistent peer would)
 	var lost []*double
 	for _, d := range n.doubles {
@@ -574,6 +585,9 @@ func (n *node) step() {
 			}
 			n.deliveries = append(n.deliveries, rec)
 			n.deliver(e.d, &bcproto.BlockResponse{Block: e.l.Block})
+			if e.d.spec.LeaveAfter > 0 && !e.l.Canon && e.d.leaveAt == 0 {
+				e.d.leaveAt = n.tick + e.d.spec.LeaveAfter
+			}
 		}
 	}
 }
@@ -709,6 +723,9 @@ func (n *node) run(budget time.Duration) (*outcome, error) {
 	return out, nil
 }
 
+// innocentMark prefixes the blame violations that carry the signature of findingRedoAssignee.
+const innocentMark = "[bystander] "
+
 // blameViolations: when a pair of blocks fails verification the node cannot tell which of the two is wrong, so it has
 // to give up both and stop both senders. Seen from outside: whenever a peer that never lied is removed with a
 // validation error for the pair (H, H+1), some peer that did serve a non-canonical block for H or H+1 on request before
@@ -755,6 +772,18 @@ func (n *node) blameViolations() []string {
 			if lStopped && (lOrder < qOrder || reasonOf[dl.Peer] == r.Reason) {
 				gone = true
 			}
+		}
+		// whoever is blamed for a pair must at least have contributed a block to it
+		contributed := false
+		for _, dl := range n.deliveries {
+			if dl.isBlock && !dl.pushed && dl.Peer == qi && dl.Seq <= r.Seq && (dl.Height == r.Pool || dl.Height == r.Pool+1) {
+				contributed = true
+			}
+		}
+		if !contributed {
+			out = append(out, fmt.Sprintf(innocentMark+"peer %d (%s) was stopped (%s) for the pair (%d,%d) without having delivered a block for either height: it is blamed for blocks somebody else sent",
+				qi, q.spec.Role, r.Reason, r.Pool, r.Pool+1))
+			continue
 		}
 		switch {
 		case candidates == 0:
